@@ -113,6 +113,9 @@ func c06Skeleton(pos int, s string, pos2 int, tok string, leaf func() any) any {
 	root := map[string]any{
 		"m": inner,
 		"l": []any{str[4], leaf()},
+		// the same strings once more below a list that is itself a list
+		// entry (value, and key/value of a map there)
+		"ll": []any{[]any{str[4], map[string]any{str[2]: str[3]}}},
 	}
 	root[str[0]] = str[1]
 	return root
